@@ -692,6 +692,17 @@ func checkMinimize(o *Out, r gts.Region, n int) {
 			o.Violate("minimize-not-disjoint", line, segsSx(ss))
 		}
 	}
+	// normal form: minimizing the answer again returns it unchanged
+	{
+		again := make(gts.Regions, len(ss))
+		for i, s := range ss {
+			again[i] = s
+		}
+		o.Run("minimize-again", len(ss) > 1, "minimize", regionSx(again))
+		if ss2 := gts.Minimize(again); !(len(ss2) == 0 && len(ss) == 0) && !reflect.DeepEqual([]gts.Segment(ss2), []gts.Segment(ss)) {
+			o.Violate("minimize-not-idempotent", join("minimize", regionSx(again)), segsSx(ss2))
+		}
+	}
 	// order / orientation independence
 	fs := flatSegs(r)
 	if len(fs) > 1 {
